@@ -5,14 +5,16 @@ set -u
 export GOFLAGS=-mod=mod GOPROXY=off GOSUMDB=off GOTOOLCHAIN=local PATH=/opt/veriftools/go1.26.8/bin:$PATH
 export GOCACHE=${GOCACHE:-/root/.cache/go-build}
 V=/verif
-B=$V/.build
+# VERIF_REPO / VERIF_BUILD: evaluation of seeded changes in a scratch worktree (never used by MANIFEST commands)
+REPO=${VERIF_REPO:-/repo}
+B=${VERIF_BUILD:-$V/.build}
 mkdir -p $B/bin $B/overlay
 if [ ! -x $B/bin/rewrite ] || [ $V/tools/rewrite/main.go -nt $B/bin/rewrite ]; then
   (cd $V/tools/rewrite && go build -o $B/bin/rewrite .) || { echo "build: rewriter failed" >&2; exit 2; }
 fi
 # third-party code that owns goroutines/locks/clocks is copied out of the module cache so that the
 # rewriter can treat it like lindb code (overlays cannot replace files under GOMODCACHE)
-TP=$B/third_party
+TP=$V/.build/third_party
 if [ ! -d $TP/golang-lru ]; then
   mkdir -p $TP && cp -r $(go env GOMODCACHE)/github.com/hashicorp/golang-lru/v2@v2.0.7 $TP/golang-lru && chmod -R u+w $TP/golang-lru || { echo "build: copy golang-lru failed" >&2; exit 2; }
 fi
@@ -35,7 +37,7 @@ GOEOF
 fi
 YIELD=github.com/lindb/lindb/kv,github.com/lindb/lindb/pkg/queue,github.com/lindb/lindb/replica,github.com/lindb/lindb/index,github.com/lindb/lindb/tsdb,github.com/lindb/lindb/query,github.com/lindb/lindb/coordinator/master,github.com/lindb/lindb/coordinator/discovery,github.com/lindb/lindb/internal/concurrent,github.com/lindb/lindb/app/storage/rpc
 CONSTS=github.com/lindb/lindb/pkg/queue.dataPageSize=512,github.com/lindb/lindb/pkg/queue.indexItemsPerPage=8,github.com/lindb/lindb/pkg/bufioutil.defaultWriteBufferSize=4096
-$B/bin/rewrite -dir /repo -out $B/overlay -const $CONSTS -yield $YIELD \
+$B/bin/rewrite -dir $REPO -out $B/overlay -const $CONSTS -yield $YIELD \
   ./kv/... ./pkg/... ./replica/... ./index/... ./tsdb/... ./query/... ./coordinator/... ./internal/... ./flow/... ./aggregation/... ./app/storage/rpc/... ./series/... ./models/... ./metrics/... ./rpc/... > $B/rewrite.log 2>&1 || { cat $B/rewrite.log >&2; echo "build: rewrite failed" >&2; exit 2; }
 $B/bin/rewrite -dir $V/sim -out $B/overlay_tp -tags verif github.com/hashicorp/golang-lru/v2/expirable > $B/rewrite_tp.log 2>&1 || { cat $B/rewrite_tp.log >&2; echo "build: rewrite (third party) failed" >&2; exit 2; }
 python3 - <<PYEOF || { echo "build: overlay merge failed" >&2; exit 2; }
@@ -44,6 +46,11 @@ a=json.load(open("$B/overlay/overlay.json")); b=json.load(open("$B/overlay_tp/ov
 a["Replace"].update(b["Replace"])
 json.dump(a,open("$B/overlay_all.json","w"))
 PYEOF
-(cd $V/sim && cp -n /repo/go.sum go.sum 2>/dev/null; go test -c -tags verif -overlay $B/overlay_all.json -o $B/sim.test.new ./run) > $B/build.log 2>&1 || { cat $B/build.log >&2; echo "build: go test -c failed" >&2; exit 2; }
+MODFLAG=""
+if [ "$REPO" != "/repo" ] || [ "$B" != "$V/.build" ]; then
+  sed -e "s#=> /repo#=> $REPO#" -e "s#=> ../.build/third_party#=> $V/.build/third_party#" $V/sim/go.mod > $B/alt.mod && cp $V/sim/go.sum $B/alt.sum
+  MODFLAG="-modfile=$B/alt.mod"
+fi
+(cd $V/sim && go test $MODFLAG -c -tags verif -overlay $B/overlay_all.json -o $B/sim.test.new ./run) > $B/build.log 2>&1 || { cat $B/build.log >&2; echo "build: go test -c failed" >&2; exit 2; }
 mv $B/sim.test.new $B/sim.test
 exit 0
